@@ -5,4 +5,4 @@ git -C /repo worktree remove --force $WT 2>/dev/null
 git -C /repo worktree add -q --detach $WT HEAD
 (cd $WT && git apply $1) || { echo APPLY-FAILED; exit 3; }
 rm -rf /tmp/ev_try; mkdir -p /tmp/ev_try
-/verif/bin/lhcheck -repo $WT -prop ${2:-all} -out /tmp/ev_try 2>&1 | grep -vE "^(ok|  held)" | cut -c1-400 | head -${LINES_MAX:-60}
+${LHBIN:-/verif/bin/lhcheck} -repo $WT -prop ${2:-all} -out /tmp/ev_try 2>&1 | grep -vE "^(ok|  held)" | cut -c1-400 | head -${LINES_MAX:-60}
